@@ -111,6 +111,9 @@ def run(ctx, rep):
             if deref(p.env, b_[2][0]) != ('call', a[1], a[2], a[0]):
                 okx = False
     rep.ob(okx and n, 'R04.4', sw.path, 'remove/free pairing', 'each object removed from the managed list is passed to free(), and nothing else is', sw.loc())
+    frc = sorted({f.path for f, b, t in F.callers_of(lambda p: p == 'object::Object::free_recursive') if f.crate == 'lib'})
+    rep.ob(not frc, 'R04.4', 'object::Object::free_recursive', 'not used on managed objects',
+           'free_recursive also frees the elements of an array; elements are managed objects that the collector frees itself, so using it inside the crate releases them twice: %s' % frc, 'src/object.rs')
     zs = [t for b, t in sw.calls() if callee_name(t).endswith('iter_zeros')]
     rep.ob(len(zs) == 1, 'R04.4', sw.path, 'frees the unmarked', 'the objects removed are those whose mark bit is clear (iter_zeros)', sw.loc())
 
